@@ -1,0 +1,49 @@
+//! Verification hooks (compiled only with `--cfg kismet_verif`).
+//!
+//! Lets a test harness script the random draws consumed by the
+//! periodic trigger and by the sharded cache's random shard choice,
+//! and exposes the crate-private trigger so that its arithmetic can
+//! be exercised directly.
+use std::cell::RefCell;
+use std::collections::VecDeque;
+
+std::thread_local! {
+    static U64_SCRIPT: RefCell<VecDeque<u64>> = const { RefCell::new(VecDeque::new()) };
+    static SHARD_SCRIPT: RefCell<VecDeque<usize>> = const { RefCell::new(VecDeque::new()) };
+    static U64_DEFAULT: RefCell<Option<u64>> = const { RefCell::new(None) };
+}
+
+/// Appends `draws` to the calling thread's queue of scripted trigger
+/// draws.
+pub fn script_u64(draws: impl IntoIterator<Item = u64>) {
+    U64_SCRIPT.with(|q| q.borrow_mut().extend(draws));
+}
+
+/// Once the scripted queue is empty, every later draw on this thread
+/// returns `value` (`None` restores the real random source).
+pub fn script_u64_default(value: Option<u64>) {
+    U64_DEFAULT.with(|d| *d.borrow_mut() = value);
+}
+
+/// Appends `ids` to the calling thread's queue of scripted random
+/// shard choices (each is reduced modulo the number of shards).
+pub fn script_shards(ids: impl IntoIterator<Item = usize>) {
+    SHARD_SCRIPT.with(|q| q.borrow_mut().extend(ids));
+}
+
+pub(crate) fn scripted_u64() -> Option<u64> {
+    U64_SCRIPT
+        .with(|q| q.borrow_mut().pop_front())
+        .or_else(|| U64_DEFAULT.with(|d| *d.borrow()))
+}
+
+pub(crate) fn scripted_shard(num_shards: usize) -> Option<usize> {
+    SHARD_SCRIPT
+        .with(|q| q.borrow_mut().pop_front())
+        .map(|i| i % num_shards.max(1))
+}
+
+/// Observes one event on a `PeriodicTrigger` of period `period`.
+pub fn trigger_event(period: u64) -> bool {
+    crate::trigger::PeriodicTrigger::new(period).event()
+}
